@@ -9,7 +9,7 @@ m = {
  "hooks": {
   "guard": "verif",
   "enable": "go build -tags verif (the harness module replaces github.com/canopy-network/canopy with /repo, so every check rebuilds from /repo's working tree)",
-  "baseline_off_cmd": "cd /repo && GOFLAGS=-mod=mod GOPROXY=off go test -vet=off -count=1 -timeout 25m ./... ; cd /repo/plugin/go && GOFLAGS=-mod=mod GOPROXY=off go test -vet=off -count=1 -timeout 25m ./...",
+  "baseline_off_cmd": "for m in . plugin/go plugin/go/tutorial; do (cd /repo/$m && GOFLAGS=-mod=mod GOPROXY=off go test -vet=off -count=1 -timeout 25m ./...); done",
   "source_commits": CHECKS.get("hook_commits", []),
   "add_only": True
  },
